@@ -286,7 +286,7 @@ func c07Finish(c *engine.Ctx, cov map[string]interface{}) string {
 func init() {
 	register(&engine.Check{
 		ID: "C07", Level: "model_checking",
-		Rule: "vocabulary of ~170 token spellings (every token class of CSS Syntax 3 incl. escapes, custom properties, quoted/unquoted/bad urls in three cases, all number/percentage/dimension shapes, unicode ranges, match operators, CDO/CDC, delimiters, whitespace kinds, comments): every single, every ordered pair × separators {none, space, newline, /**/}, every triple over a 46-spelling core × separators; every byte string ≤k atoms over the CSS alphabets; edit balls around the CSS seeds; each lexed by css.Lexer and by a transcription of the CSS Syntax 3 (CR 2014) tokenizer; inputs the reference flags as ambiguous (NUL, invalid UTF-8, hex-escaped url(, number followed by --) are skipped, inputs with spec parse errors are compared up to the malformed construct and for the BadString/BadURL clauses. IsIdent/IsURLUnquoted compared with the library's own lexer on every enumerated byte string",
+		Rule:        "vocabulary of ~170 token spellings (every token class of CSS Syntax 3 incl. escapes, custom properties, quoted/unquoted/bad urls in three cases, all number/percentage/dimension shapes, unicode ranges, match operators, CDO/CDC, delimiters, whitespace kinds, comments): every single, every ordered pair × separators {none, space, newline, /**/}, every triple over a 46-spelling core × separators; every byte string ≤k atoms over the CSS alphabets; edit balls around the CSS seeds; each lexed by css.Lexer and by a transcription of the CSS Syntax 3 (CR 2014) tokenizer; inputs the reference flags as ambiguous (NUL, invalid UTF-8, hex-escaped url(, number followed by --) are skipped, inputs with spec parse errors are compared up to the malformed construct and for the BadString/BadURL clauses. IsIdent/IsURLUnquoted compared with the library's own lexer on every enumerated byte string",
 		Assumptions: []string{"reference = CSS Syntax Level 3 CR 2014 tokenizer + comments as tokens + --x as custom-property-name", "BadString: the library includes the newline in the token, the spec does not; only type and prefix are compared"},
 		Setup:       c07Setup, Work: c07Work, Finish: c07Finish,
 	})
